@@ -142,6 +142,17 @@ theorem conversions_caught :
     pyCaught .ValueError (clause Gen.excHeartbeat20 0) = true ∧ pyCaught .ValueError (clause Gen.excHeartbeat22 0) = true ∧
     pyCaught .AwesomeVersionCompareException (clause Gen.excVersion 0) = true ∧
     pyCaught .ValueError (clause Gen.excVersion 0) = true ∧
+    pyCaught .IndexError (clause Gen.excVersion 0) = true ∧
     pyCaught .ValidationError (clause Gen.excListen 0) = true := by decide
+
+/-- The version conversion raises nothing but what its clause names: every class `get_protocol` can end in
+(comparison error, `int()` digit limit, awesomeversion's `IndexError` on a CalVer string ending in `".\n"`), for
+every Python string. -/
+theorem version_conversion_caught (s : Str) (c : PyExn) (h : getProtocolE s = .error c) :
+    pyCaught c (clause Gen.excVersion 0) = true := getProtocolE_caught s c h
+
+/-- The `IndexError` class is really produced (the witness of defect F16). -/
+example : (match getProtocolE "20.1.2.\n.".toList with | .error .IndexError => true | _ => false) = true := by
+  decide +kernel
 
 end AioMySensors.C03
